@@ -17,6 +17,8 @@ type ScaleRecipe struct {
 	Contexts []ScaleContext `json:"contexts"`
 	Edges    string         `json:"edges"` // next | next2 | later | half | mod3
 	Wrap     string         `json:"wrap"`  // direct | field | alias | mixed
+	// VarDir: every fragment's leaf carries a variable-driven @include
+	VarDir bool `json:"varDir,omitempty"`
 }
 
 type ScaleContext struct {
@@ -76,6 +78,11 @@ var kitchenScaleVocabulary = scaleVocab{Root: "i", Iface: "I", Next: "i", Leaf: 
 
 func recipeDocV(r *ScaleRecipe, n int, vc scaleVocab) string {
 	var sb strings.Builder
+	leaf := vc.Leaf
+	if r.VarDir {
+		sb.WriteString("query($s: Boolean = true) ")
+		leaf += " @include(if: $s)"
+	}
 	fmt.Fprintf(&sb, "{ %s { ", vc.Root)
 	for _, c := range r.Contexts {
 		if c.OnType >= 0 {
@@ -92,7 +99,7 @@ func recipeDocV(r *ScaleRecipe, n int, vc scaleVocab) string {
 	}
 	sb.WriteString("} }")
 	for i := 0; i < n; i++ {
-		fmt.Fprintf(&sb, " fragment F%d on %s { %s ", i, vc.Iface, vc.Leaf)
+		fmt.Fprintf(&sb, " fragment F%d on %s { %s ", i, vc.Iface, leaf)
 		for k, j := range r.edges(i, n) {
 			wrap := r.Wrap
 			// every edge of one document goes through the same response key: two keys per level
@@ -120,5 +127,6 @@ func drawRecipe(rt *rapid.T) *ScaleRecipe {
 	for i, k := 0, gen.Intn(rt, 1, 3, "contexts"); i < k; i++ {
 		r.Contexts = append(r.Contexts, ScaleContext{OnType: gen.Uniform(rt, 5, "onType") - 1, Keyed: gen.Chance(rt, 50, "keyed")})
 	}
+	r.VarDir = gen.Chance(rt, 40, "varDir")
 	return r
 }
